@@ -137,14 +137,15 @@ Definition window_pd (p : Z) (ts : list Z) (n i : nat) : list nat :=
   filter (in_window_pd (growth_sign ts) p ts i) (seq 0 n).
 
 (* value of one window: Rolling.std() (sample std of the non-NaN values, NaN below two of them)
-   resp. Rolling.apply(np.ptp, raw=True) (np.ptp of the raw window: NaN as soon as it holds a NaN);
+   resp. Rolling.apply(nanmax - nanmin, raw=True) (range of the non-NaN values, NaN when there is none;
+   before the repair of F19 it was np.ptp of the raw window: NaN as soon as the window held a NaN);
    both NaN when fewer than min_periods non-NaN observations *)
 Definition win_spread_pd (ct : check_type) (minp : Z) (w : list obs) : option Q :=
   let p := present w in
   if (Z.of_nat (length p) <? minp)%Z then None else
   match ct with
   | Std => if (length p <? 2)%nat then None else Some (stat Std true p)
-  | Range => if existsb is_none w then None else Some (stat Range true p)
+  | Range => if (length p <? 1)%nat then None else Some (stat Range true p)
   end.
 
 (* ---------------------------------------------------------------- the flag overwrites *)
